@@ -613,6 +613,12 @@ def highlight_leg(ctx):
             got = [x["t"] for x in nodes if x["k"] == "literal_block"]
             n += 1
             ctx.count(("hl", lang, wrap))
+            # the info string's language is kept on the node (a class under docutils), whether pygments knows it or not
+            from docutils import nodes as _dn
+            lbs = list(doc.findall(_dn.literal_block))
+            if lang and (len(lbs) != 1 or lang not in lbs[0].get("classes", [])):
+                ctx.violation(f"code block with language {lang!r}: the language is not recorded on the node (classes {lbs[0].get('classes') if lbs else None})",
+                              {"leg": "R-highlight", "markdown": text})
             if got != [want]:
                 fid = "C02-lexer-newline" if got == [want[:-1]] and want.endswith("\n") else None
                 ctx.violation(f"code block text not verbatim with highlighting on (language {lang!r}): expected {want!r}, observed {got}",
